@@ -64,7 +64,7 @@ P = {
          "the assembly stores only through the result-slot pointer; read-only threads cannot race. Dynamic tie: argument snapshots (incl. spare capacity) on every correspondence call, repeated-call determinism, 64 goroutines x all functions over shared backing arrays under the race detector."),
  "C19": ("proof", "4.C19", "Coq proof (incl. optimality of greedy counting) + relation evaluated on the implementation", "All eight embedding statements proved for Spec with x, s well-formed."),
  "C20": ("proof", "4.C20", "Coq proof for the ASCII class against byte-exact models of the namesakes + direct comparison with strings/bytes",
-         "PARTIAL. ASCII class proved for 18 functions (Compare, EqualFold, Index, Contains, LastIndex, HasPrefix, HasSuffix, TrimPrefix, TrimSuffix, CutPrefix, CutSuffix, Count, Cut, IndexRune, ContainsRune, IndexAny, ContainsAny, LastIndexAny) against byte-exact models of the namesakes on the ASCII-lower-cased arguments; EqualFold on ALL byte strings (C02); IndexByte/LastIndexByte are characterised byte-exactly in C10. Caseless class (well-formed UTF-8 none of whose code points is changed by folding) proved for 11 functions (Index, Contains, LastIndex, HasPrefix, HasSuffix, TrimPrefix, TrimSuffix, CutPrefix, CutSuffix, Count, Cut) from an alignment theorem (a byte-level occurrence of a well-formed needle in well-formed UTF-8 starts and ends on code-point boundaries and is an occurrence of its code points, and conversely); Compare and the character searches of that class, and the tie of the byte-exact models to the real strings/bytes functions, are decided by direct comparison of both packages with the real functions on every generated case (see DESIGN 4.C20)."),
+         "PARTIAL. ASCII class proved for 18 functions (Compare, EqualFold, Index, Contains, LastIndex, HasPrefix, HasSuffix, TrimPrefix, TrimSuffix, CutPrefix, CutSuffix, Count, Cut, IndexRune, ContainsRune, IndexAny, ContainsAny, LastIndexAny) against byte-exact models of the namesakes on the ASCII-lower-cased arguments; EqualFold on ALL byte strings (C02); IndexByte/LastIndexByte are characterised byte-exactly in C10. Caseless class (well-formed UTF-8 none of whose code points is changed by folding) proved for 12 functions (Compare — UTF-8 preserves code-point order —, Index, Contains, LastIndex, HasPrefix, HasSuffix, TrimPrefix, TrimSuffix, CutPrefix, CutSuffix, Count, Cut) from an alignment theorem (a byte-level occurrence of a well-formed needle in well-formed UTF-8 starts and ends on code-point boundaries and is an occurrence of its code points, and conversely); the character searches of that class, and the tie of the byte-exact models to the real strings/bytes functions, are decided by direct comparison of both packages with the real functions on every generated case (see DESIGN 4.C20)."),
 }
 
 checks = []
